@@ -90,8 +90,11 @@ StopListening ==
 
 \* descriptor events of another onion service on the same Tor arrive: nothing changes for this listen()
 Foreign == UNCHANGED vars
+\* likewise a failed *fetch* of this service's descriptor (somebody looked the address up before it was published):
+\* Tor reports it with the same event word and our address; it is not an upload and decides nothing
+FetchFailed == UNCHANGED vars
 
-Next == Foreign \/ Refuse \/ Listen \/ ConfigReady \/ CreateReply \/ Disconnect \/ WaitOver \/ UnsubAck \/ StopListening
+Next == Foreign \/ FetchFailed \/ Refuse \/ Listen \/ ConfigReady \/ CreateReply \/ Disconnect \/ WaitOver \/ UnsubAck \/ StopListening
 Spec == Init /\ [][Next]_vars
 
 ----------------------------------------------------------------------------
